@@ -183,7 +183,8 @@ def body_for(beh: Dict[str, Any], req: Optional[Dict[str, Any]]) -> Tuple[bytes,
         n = int(kind[5:])
         msgs = [dict(note1, params={"progressToken": "t", "progress": i}) if i % 2 else
                 dict(note2, params={"level": "info", "data": TEXT + str(i)}) for i in range(n)] + [resp]
-    elif kind in ("empty", "truncated", "nonjson", "nonutf8", "json_scalar", "sse_no_message", "sse_bad_json", "sse_bad_byte_in_string"):
+    elif kind in ("empty", "truncated", "nonjson", "nonutf8", "json_scalar", "sse_no_message", "sse_bad_json", "sse_bad_byte_in_string",
+                  "json_bad_byte_in_string"):
         msgs = []
     else:
         raise KeyError(kind)
@@ -203,6 +204,11 @@ def body_for(beh: Dict[str, Any], req: Optional[Dict[str, Any]]) -> Tuple[bytes,
         return b": just a comment\n\nevent: ping\ndata: {}\n\n", []
     if kind == "sse_bad_json":
         return b"event: message\ndata: {not json\n\n", []
+    if kind == "json_bad_byte_in_string":
+        # the JSON twin: a complete response object, one byte inside a string value is not UTF-8 (a Latin-1 e-acute)
+        good = json.dumps(resp, ensure_ascii=False).encode("utf-8")
+        cut = good.index(b'"text"') + 9 if b'"text"' in good else len(good) // 2
+        return good[:cut] + b"caf\xe9 au lait" + good[cut:], []
     if kind == "sse_bad_byte_in_string":
         # a well-framed event whose JSON text holds a byte that is not UTF-8 inside a string: the body is malformed -
         # nothing "repaired" may be delivered as if the server had said it
@@ -257,6 +263,8 @@ def single_behaviours() -> List[Dict[str, Any]]:
     out.append({"status": 200, "ctype": "sse", "body": "sse_note_then_truncated"})
     out.append({"status": 200, "ctype": "sse", "body": "sse_bad_byte_in_string"})
     out.append({"status": 200, "ctype": "sse_charset", "body": "sse_bad_byte_in_string"})
+    for ct_ in ("json", "json_charset", "json_upper"):
+        out.append({"status": 200, "ctype": ct_, "body": "json_bad_byte_in_string"})
     for j_ in ("text", "number", "string", "true", "html"):
         out.append({"status": 200, "ctype": "sse", "body": "sse_note_then_nonmessage:" + j_})
     out.append({"status": 200, "ctype": "json", "body": "json_batch_note_then_junk"})
@@ -655,7 +663,7 @@ def exec_case(ctx, seq: List[Dict[str, Any]]) -> None:
             ctx.violation(mech, f"request #{k} ({beh}): read stream got {[g[:3] for g in got_n]!r}, server sent "
                           f"{[norm_any(m)[:3] for m in exp]!r}", case)
         elif ref["mode"] == "terminal" and ok_term and terminal[0][0] == "response" and \
-                beh.get("body") in ("truncated", "nonjson", "nonutf8", "json_scalar", "sse_bad_json", "sse_bad_byte_in_string") \
+                beh.get("body") in ("truncated", "nonjson", "nonutf8", "json_scalar", "sse_bad_json", "sse_bad_byte_in_string", "json_bad_byte_in_string") \
                 and beh.get("status", 200) < 400:
             # the body was there but carried no message: the request ends in a synthesised *error* - a result would be
             # something the server never said (e.g. a text "repaired" by replacing undecodable bytes)
